@@ -57,6 +57,9 @@ fn build_undirected_neighbors(store: &LpgStore) -> FxHashMap<NodeId, FxHashSet<N
     for &node in &nodes {
         // Outgoing edges: node -> neighbor
         for (neighbor, _) in store.edges_from(node, Direction::Outgoing) {
+            if neighbor == node {
+                continue; // a self-loop does not make a node its own neighbor
+            }
             if let Some(set) = neighbors.get_mut(&node) {
                 set.insert(neighbor);
             }
@@ -68,6 +71,9 @@ fn build_undirected_neighbors(store: &LpgStore) -> FxHashMap<NodeId, FxHashSet<N
 
         // Incoming edges: neighbor -> node (ensures we capture all connections)
         for (neighbor, _) in store.edges_from(node, Direction::Incoming) {
+            if neighbor == node {
+                continue;
+            }
             if let Some(set) = neighbors.get_mut(&node) {
                 set.insert(neighbor);
             }
